@@ -132,8 +132,6 @@ def check(spec, stats):
                 if not ok and not bad:
                     raise Violation("C17/legal-add-refused", f"add({name!r}, width {w}, offset={off!r}) refused: {e}")
                 if ok:
-                    if ret is not reg:
-                        raise Violation("C17/add-return", "add() did not return the register")
                     model.append((reg, tuple(stack) + (name,), w, off))
                     regs.append(reg)
                     if off is not None:
@@ -241,9 +239,6 @@ def check(spec, stats):
                     raise Violation("C17/layout", f"{where} (call #{attempt + 1}): resources() = "
                                     f"{[(n, s, e) for _, n, s, e in got]}, model {[(n, s, e) for _, n, s, e in want]} "
                                     f"(registers in insertion order {[(n, w, o) for _, n, w, o in model]}, dw={dw} g={g})")
-                mm = out[2]
-                if (mm.addr_width, mm.data_width) != (aw, dw):
-                    raise Violation("C17/map-geometry", f"map {mm.addr_width}x{mm.data_width}, builder {aw}x{dw}")
         if kind == "raise":
             stats.label("layout_refused_" + exp)
         else:
